@@ -590,4 +590,163 @@ theorem gp_poly_dyadic_product_inplace_eq (a b : List Nat) (m : Modulus) (hl : a
   simp only []
   rw [gp_dyadic_inplace_loop_eq, gp_dyadicProduct_zipM']
   exact gp_binary_in _ _ a b hl (fun _ _ _ => rfl)
+/-! ### the `_p` / `_ps` wrappers: a kernel applied to consecutive blocks of the flat buffer -/
+
+/-- `for i in i0..i0+cnt { let upper = offset + n; r = step i offset upper r; offset = upper }` -/
+def gp_bloop (step : Nat → Nat → Nat → List Nat → R (List Nat)) (n : Nat) : Nat → Nat → List Nat → Nat → R (List Nat)
+  | 0, _, r, _ => pure r
+  | fuel+1, i, r, off => do
+    let upper ← ckAdd off n
+    let r ← step i off upper r
+    gp_bloop step n fuel (i + 1) r upper
+
+/-- `B i` applied to the `cnt` consecutive `n`-blocks of `rest` (block numbers from `i`), the remainder kept -/
+def gp_blocks (B : Nat → List Nat → R (List Nat)) (n : Nat) : Nat → Nat → List Nat → R (List Nat)
+  | 0, _, rest => pure rest
+  | cnt+1, i, rest => do
+    let o ← B i (rest.take n)
+    let tl ← gp_blocks B n cnt (i + 1) (rest.drop n)
+    pure (o ++ tl)
+
+theorem gp_slice_block (pre rest : List Nat) (i n : Nat) (hp : pre.length = i * n) (hn : n ≤ rest.length) :
+    GenP.slice (pre ++ rest) (i * n) (i * n + n) = .ok (rest.take n) := by
+  unfold GenP.slice
+  rw [if_pos ⟨by omega, by rw [List.length_append]; omega⟩, ← hp, List.drop_left, Nat.add_sub_cancel_left]
+
+theorem gp_splice_block (pre rest o : List Nat) (i n : Nat) (hp : pre.length = i * n) (ho : o.length = n) :
+    GenP.splice (pre ++ rest) (i * n) o = pre ++ o ++ rest.drop n := by
+  unfold GenP.splice
+  rw [ho, ← hp, List.take_left, List.drop_append, List.drop_eq_nil_of_le (by omega)]
+  simp
+
+theorem gp_mapM_length {α : Type} (f : α → R Nat) : ∀ (l : List α) (vs : List Nat), l.mapM f = .ok vs → vs.length = l.length := by
+  intro l
+  induction l with
+  | nil => intro vs h; simp at h; cases h; rfl
+  | cons x t ih =>
+    intro vs h
+    rw [List.mapM_cons] at h
+    cases hx : f x with
+    | error e => rw [hx] at h; cases h
+    | ok y =>
+      rw [hx] at h
+      cases ht : t.mapM f with
+      | error e => rw [ht] at h; cases h
+      | ok ws =>
+        rw [ht] at h
+        cases h
+        simp [ih ws ht]
+
+theorem gp_bloop_blocks (step : Nat → Nat → Nat → List Nat → R (List Nat)) (B : Nat → List Nat → R (List Nat)) (n : Nat)
+    (hstep : ∀ i pre rest, pre.length = i * n → n ≤ rest.length →
+      step i (i * n) (i * n + n) (pre ++ rest) = (do let o ← B i (rest.take n); pure (pre ++ o ++ rest.drop n)))
+    (hlen : ∀ i x o, B i x = .ok o → o.length = x.length) :
+    ∀ cnt i pre rest, pre.length = i * n → cnt * n ≤ rest.length → (pre ++ rest).length < B64 →
+    gp_bloop step n cnt i (pre ++ rest) (i * n) = (do let x ← gp_blocks B n cnt i rest; pure (pre ++ x)) := by
+  intro cnt
+  induction cnt with
+  | zero => intro i pre rest _ _ _; simp [gp_bloop, gp_blocks]
+  | succ c ih =>
+    intro i pre rest hp hr hB
+    have hn : n ≤ rest.length := by rw [Nat.succ_mul] at hr; omega
+    have hck : ckAdd (i * n) n = .ok (i * n + n) := by
+      unfold ckAdd; rw [if_pos (by rw [List.length_append] at hB; omega)]
+    rw [gp_bloop, gp_blocks, hck]
+    simp only [bind, Except.bind]
+    rw [hstep i pre rest hp hn]
+    cases hb : B i (rest.take n) with
+    | error e => rfl
+    | ok o =>
+      have hol : o.length = n := by rw [hlen i _ o hb, List.length_take, Nat.min_eq_left hn]
+      simp only [bind, Except.bind, pure, Except.pure]
+      have h2 : i * n + n = (i + 1) * n := by rw [Nat.succ_mul]
+      rw [h2, List.append_assoc pre o, ← List.append_assoc pre o (rest.drop n)]
+      rw [ih (i + 1) (pre ++ o) (rest.drop n) (by rw [List.length_append, hp, hol, Nat.succ_mul])
+        (by rw [List.length_drop]; rw [Nat.succ_mul] at hr; omega)
+        (by simp only [List.length_append, List.length_drop] at hB ⊢; omega)]
+      cases gp_blocks B n c (i + 1) (rest.drop n) with
+      | error e => rfl
+      | ok tl => simp [bind, Except.bind, pure, Except.pure]
+
+/-! ### multiply_scalar_p -/
+
+theorem gp_multiply_scalar_len (c : List Nat) (s : Nat) (m : Modulus) (x o : List Nat)
+    (h : GenP.poly_multiply_scalar c s m x = .ok o) : o.length = x.length := by
+  rw [gp_poly_multiply_scalar_eq] at h
+  cases hm : (c.take (min x.length c.length)).mapM (fun y => mulMod y s m) with
+  | error e => rw [hm] at h; cases h
+  | ok vs =>
+    rw [hm] at h
+    cases h
+    have := gp_mapM_length _ _ vs hm
+    simp only [List.length_append, List.length_drop, this, List.length_take]
+    omega
+
+/-- one iteration of the generated `multiply_scalar_p` loop -/
+def gp_msp_step (poly : List Nat) (s : Nat) (mods : List Modulus) (i off up : Nat) (r : List Nat) : R (List Nat) := do
+  let t1 ← GenP.slice poly off up
+  let t2 ← GenP.idxT mods i
+  let t3 ← GenP.slice r off up
+  let t4 ← GenP.poly_multiply_scalar t1 s t2 t3
+  pure (GenP.splice r off t4)
+
+theorem gp_multiply_scalar_p_loop_eq (poly : List Nat) (s n : Nat) (mods : List Modulus) : ∀ cnt i r off,
+    GenP.poly_multiply_scalar_p_loop1 poly s n mods cnt i r off = gp_bloop (gp_msp_step poly s mods) n cnt i r off := by
+  intro cnt
+  induction cnt with
+  | zero => intro i r off; rfl
+  | succ c ih =>
+    intro i r off
+    rw [GenP.poly_multiply_scalar_p_loop1, gp_bloop]
+    simp only [gp_msp_step, bind_assoc, pure_bind, ih]
+
+/-- the kernel call of `multiply_scalar_p` for component `i` (block `i` of `poly`, modulus `moduli[i]`) -/
+def gp_msp_block (poly : List Nat) (s n : Nat) (mods : List Modulus) (i : Nat) (x : List Nat) : R (List Nat) := do
+  let t1 ← GenP.slice poly (i * n) (i * n + n)
+  let t2 ← GenP.idxT mods i
+  GenP.poly_multiply_scalar t1 s t2 x
+
+/-- `multiply_scalar_p(poly, scalar, degree, moduli, result)`: the kernel `multiply_scalar` applied, component after component, to
+    the consecutive `degree`-blocks of `result` (with block `i` of `poly` and `moduli[i]`); words of `result` beyond the last block
+    are kept.  Together with `gp_poly_multiply_scalar_eq` this fixes the function completely on the flat layout. -/
+theorem gp_poly_multiply_scalar_p_blocks (poly : List Nat) (s n : Nat) (mods : List Modulus) (r : List Nat)
+    (hr : mods.length * n ≤ r.length) (hB : r.length < B64) :
+    GenP.poly_multiply_scalar_p poly s n mods r = gp_blocks (gp_msp_block poly s n mods) n mods.length 0 r := by
+  unfold GenP.poly_multiply_scalar_p
+  simp only []
+  rw [gp_multiply_scalar_p_loop_eq]
+  have h := gp_bloop_blocks (gp_msp_step poly s mods) (gp_msp_block poly s n mods) n
+    (by
+      intro i pre rest hp hn
+      simp only [gp_msp_step, gp_msp_block, bind_assoc]
+      cases h1 : GenP.slice poly (i * n) (i * n + n) with
+      | error e => rfl
+      | ok t1 =>
+        cases h2 : GenP.idxT mods i with
+        | error e => rfl
+        | ok t2 =>
+          simp only [bind, Except.bind, gp_slice_block pre rest i n hp hn]
+          cases h3 : GenP.poly_multiply_scalar t1 s t2 (rest.take n) with
+          | error e => rfl
+          | ok o =>
+            have ho : o.length = n := by
+              rw [gp_multiply_scalar_len _ _ _ _ _ h3, List.length_take, Nat.min_eq_left hn]
+            simp only [pure, Except.pure, gp_splice_block pre rest o i n hp ho])
+    (by
+      intro i x o h
+      unfold gp_msp_block at h
+      cases h1 : GenP.slice poly (i * n) (i * n + n) with
+      | error e => rw [h1] at h; cases h
+      | ok t1 =>
+        cases h2 : GenP.idxT mods i with
+        | error e => rw [h1, h2] at h; cases h
+        | ok t2 =>
+          rw [h1, h2] at h
+          exact gp_multiply_scalar_len _ _ _ _ _ h)
+    mods.length 0 [] r (by simp) hr (by simpa using hB)
+  simp only [List.nil_append, Nat.zero_mul] at h
+  rw [h]
+  cases gp_blocks (gp_msp_block poly s n mods) n mods.length 0 r with
+  | error e => rfl
+  | ok x => rfl
 end HC
